@@ -44,6 +44,14 @@ def run(ctx):
     r07_3(ctx, rep, roles)
     r07_4(ctx, rep, roles, snd)
     r07_5(ctx, rep, roles, snd)
+    # the bound is computed from serialized_len: it must equal the bytes written (seed R2-C07-2)
+    from . import c08
+    from ..core import wire
+    S = wire.impls(fx, wire.SER, "serialize")
+    L = wire.impls(fx, wire.SER, "serialized_len")
+    W = {ty: (f,) + tuple(wire.writer(fx, f, S, L)) for ty, f in sorted(S.items())}
+    c08.r08_3(ctx, rep, S, L, W)
+    ctx.report.rules[-1].id = "R07.6(R08.3)"
 
 
 def msg_len_terms(fx):
